@@ -19,6 +19,7 @@ import (
 	"github.com/ipfs/go-graphsync/donotsendfirstblocks"
 	"github.com/ipfs/go-graphsync/ipldutil"
 	gsmsg "github.com/ipfs/go-graphsync/message"
+	"github.com/ipfs/go-graphsync/panics"
 	"github.com/ipfs/go-graphsync/requestmanager/hooks"
 	"github.com/ipfs/go-graphsync/requestmanager/types"
 )
@@ -113,6 +114,8 @@ type RequestTask struct {
 	InProgressErr        chan error
 	Empty                bool
 	ReconciledLoader     ReconciledLoader
+	// PanicCallback is told about a panic raised by the storage read or write functions
+	PanicCallback panics.CallBackFn
 }
 
 func (e *Executor) traverse(rt RequestTask) error {
@@ -133,7 +136,7 @@ func (e *Executor) traverse(rt RequestTask) error {
 		lnk, linkContext := rt.Traverser.CurrentRequest()
 		// attempt to load
 		log.Debugf("will load link=%s", lnk)
-		result := rt.ReconciledLoader.BlockReadOpener(linkContext, lnk)
+		result := safeLoad(rt, func() types.AsyncLoadResult { return rt.ReconciledLoader.BlockReadOpener(linkContext, lnk) })
 		// if we've only loaded locally so far and hit a missing block
 		// initiate remote request and retry the load operation from remote
 		if _, ok := result.Err.(graphsync.RemoteMissingBlockErr); ok && !requestSent {
@@ -155,7 +158,7 @@ func (e *Executor) traverse(rt RequestTask) error {
 				return err
 			}
 			// retry the load
-			result = rt.ReconciledLoader.RetryLastLoad()
+			result = safeLoad(rt, rt.ReconciledLoader.RetryLastLoad)
 		}
 		log.Debugf("successfully loaded link=%s, nBlocksRead=%d", lnk, rt.Traverser.NBlocksTraversed())
 		// advance the traversal based on results
@@ -170,6 +173,17 @@ func (e *Executor) traverse(rt RequestTask) error {
 			return err
 		}
 	}
+}
+
+// safeLoad runs a load (which calls user supplied storage code) and turns a panic into a load error,
+// so that it fails this request only
+func safeLoad(rt RequestTask, load func() types.AsyncLoadResult) (result types.AsyncLoadResult) {
+	defer func() {
+		if rerr := panics.MakeHandler(rt.PanicCallback)(recover()); rerr != nil {
+			result = types.AsyncLoadResult{Err: rerr}
+		}
+	}()
+	return load()
 }
 
 func (e *Executor) processBlockHooks(p peer.ID, response graphsync.ResponseData, block graphsync.BlockData) error {
